@@ -107,14 +107,24 @@ class Layout:
                         continue
                     hs = list(e['ck']) or ([] if e.get('sizeonly') else ['SHA256'])
                     e['size'] = len(data)
+                    if e.get('unsup'):
+                        continue        # only hash names nobody can compute: the values stay as they are
                     e['ck'] = dict((h, fm.digest(h, data)) for h in hs)
+            for e in self.mf[mp]:
+                if e.get('selfsize'):
+                    # an entry of a plain Manifest for itself that states its true size (fixed point)
+                    for _ in range(6):
+                        n = len(fm.manifest_bytes(self.mf[mp], 'plain'))
+                        if e['size'] == n:
+                            break
+                        e['size'] = n
             fp = os.path.join(root, mp)
             os.makedirs(os.path.dirname(fp), exist_ok=True)
             with open(fp, 'wb') as f:
                 f.write(fm.manifest_bytes(self.mf[mp], fm.compression_of(mp)))
 
 
-def random_layout(rng, depth=3, maxfiles=10, comps=COMPS, odd=0.15, links=True):
+def random_layout(rng, depth=3, maxfiles=10, comps=COMPS, odd=0.15, links=True, dupnames=False, selfent=False):
     """A consistent tree + Manifest layout with the features C01's quantifier lists."""
     L = Layout(rng)
     pal = palette(rng)
@@ -219,7 +229,22 @@ def random_layout(rng, depth=3, maxfiles=10, comps=COMPS, odd=0.15, links=True):
         relp = L.rel(p, mp)
         if rng.random() < 0.15 and relp.startswith('files/') and len(relp) > 6:
             tag = 'AUX'
-        L.add_file_entry(mp, p, data, tag, hs)
+        e0 = L.add_file_entry(mp, p, data, tag, hs)
+        if dupnames and hs and rng.random() < 0.04:
+            # a checksum name listed twice in one entry (wrong value first or last, or twice the right one)
+            h = rng.choice(sorted(hs))
+            good = e0['ck'][h]
+            bad = fm.digest(h, data + b'x') if rng.random() < 0.7 else '0' * len(good)
+            pairs = [[k, e0['ck'][k]] for k in sorted(e0['ck'])]
+            at = [k for k, _ in pairs].index(h)
+            how = rng.choice(['bad_first', 'bad_first', 'bad_last', 'twice'])
+            if how == 'bad_first':
+                pairs.insert(at, [h, bad])
+            elif how == 'bad_last':
+                pairs.insert(at + 1, [h, bad])
+            else:
+                pairs.insert(at, [h, good])
+            e0['ckl'] = pairs
         r = rng.random()
         if r < 0.08:      # compatible duplicate, other hash set, possibly in another Manifest
             mp2 = rng.choice(govs)
@@ -258,6 +283,22 @@ def random_layout(rng, depth=3, maxfiles=10, comps=COMPS, odd=0.15, links=True):
             par = govs[0] if rng.random() < 0.85 else rng.choice(govs)
         L.mf[par].append({'tag': 'MANIFEST', 'path': L.rel(mp, par), 'size': 0,
                           'ck': dict((h, '') for h in rng.choice(HASHSETS[:4])), 'ref': mp})
+    # a Manifest with an entry for itself: an entry like any other (wrong size or digest, IGNORE, or - for a
+    # plain Manifest - its true size without digests)
+    if selfent:
+        for mp in sorted(L.mf):
+            if rng.random() < 0.06:
+                b = os.path.basename(mp)
+                how = rng.choice(['wrong', 'wrong', 'ignore', 'size'])
+                if how == 'ignore':
+                    L.mf[mp].append({'tag': 'IGNORE', 'path': b, 'size': 0, 'ck': {}})
+                elif how == 'size' and fm.compression_of(mp) == 'plain':
+                    L.mf[mp].append({'tag': rng.choice(['MANIFEST', 'DATA']), 'path': b, 'size': 0, 'ck': {},
+                                     'selfsize': True})
+                else:
+                    L.mf[mp].append({'tag': rng.choice(['MANIFEST', 'DATA', 'MISC']), 'path': b,
+                                     'size': rng.choice([0, 1, 77]),
+                                     'ck': rng.choice([{}, {'SHA256': '0' * 64}, {'MD5': 'd41d8cd98f00b204e9800998ecf8427e'}])})
     # unrelated entries
     if rng.random() < 0.3:
         L.mf['Manifest'].append({'tag': 'DIST', 'path': 'foo-1.tar.gz', 'size': 123, 'ck': {'SHA256': 'ab' * 32}})
